@@ -119,6 +119,9 @@ def run(ctx):
         # ---- e  a retried write continues where the previous one stopped
         from ..rules import contwrite
         contwrite.check_write_continuation(ck, prog, config, 'C12-e')
+        # ---- f  a short count from the read wrapper means end of file
+        from ..rules import shorteof
+        shorteof.check_short_is_eof(ck, prog, config, 'C12-f')
         ck.extra.setdefault('inferred_conventions', {}).update(convs.inferred)
         n_units, hits = unused_result_witness(config)
         for f, line, text in hits:
@@ -130,6 +133,13 @@ def run(ctx):
 
 
 MUTANTS = [
+    {'id': 'm12f', 'desc': 'read wrapper returns after one read() (pre-fix form)', 'file': 'src/lib/io.c',
+     'old': """        if(rb == 0)
+            break;
+        read_bytes += rb;
+    }""", 'new': """        read_bytes += rb;
+        break;
+    }""", 'expect': 'R1.short-is-eof read_data'},
     {'id': 'm12w', 'desc': 'write retry loop that never advances the source (seeded c12r3/c01r3)', 'file': 'src/lib/io.c',
      'old': """    } else if(write_bytes < length) {
         // According to man page, if write is less than full amount, we should try again
